@@ -290,7 +290,7 @@ func typeSwitchCases(f *ssa.Function, v ssa.Value) map[string]*ssa.TypeAssert {
 
 // checkSwitchCoverage: the type switch on value v in f has an arm for each
 // Go type of the table (plus extra, e.g. []string).
-func (kt *kindTable) checkSwitchCoverage(r *Report, f *ssa.Function, v ssa.Value, what string, extra []string, consequence string) map[string]*ssa.TypeAssert {
+func (kt *kindTable) checkSwitchCoverage(r *Report, f *ssa.Function, v ssa.Value, what string, extra []string, consequence string, floor int) map[string]*ssa.TypeAssert {
 	cases := typeSwitchCases(f, v)
 	r.fn(funcName(f))
 	want := []string{}
@@ -302,6 +302,6 @@ func (kt *kindTable) checkSwitchCoverage(r *Report, f *ssa.Function, v ssa.Value
 		_, ok := cases[ts]
 		r.decide(ok, "R1.switch-coverage", what+":case "+ts, kt.p.pos(f.Pos()), "has an arm", "the type switch in "+what+" has no arm for "+ts+": "+consequence)
 	}
-	r.floor(what+" type-switch arms", len(cases), len(want))
+	r.floor(what+" type-switch arms", len(cases), floor)
 	return cases
 }
